@@ -73,11 +73,11 @@ def contracts():
               "forall(a, b, implies(((a, b) in old(top._dag.all_constraints)) and (a in elems(top._sched.update_schedule)) and (b in elems(top._sched.update_schedule)), gpos(a) < gpos(b))) and "
               "forall(a, implies(a in elems(top._sched.update_schedule), 0 <= gpos(a) and gpos(a) < card(elems(top._sched.update_schedule))))",
       source="C02: 'each update block ... executes exactly once' and 'explicit block ordering constraints are honoured': on normal return the schedule is a duplicate-free list of exactly the combinational blocks in which every constraint (u,v) has u before v; otherwise an error is raised")],
-    loops={1:Loop(invariant=["dom(InD) == V and dom(Es) == V",
+    loops={'in top._dag.all_constraints':Loop(invariant=["dom(InD) == V and dom(Es) == V",
                              "forall(a, b, ((a, b) in E) == (((a, b) in seen) and a in V and b in V))", EDGES, IND, ES],
                   modifies=['InD','Es','E'],ghost=['g_rem']),
-           2:Loop(invariant=W, modifies=['Q','update_schedule','InD'],ghost=['g_rem','g_pos']),
-           3:Loop(invariant=INNER, modifies=['Q','InD'],ghost=['g_rem'])},
+           'while Q':Loop(invariant=W, modifies=['Q','update_schedule','InD'],ghost=['g_rem','g_pos']),
+           'in Es[u]':Loop(invariant=INNER, modifies=['Q','InD'],ghost=['g_rem'])},
     ghost_init=ghost_init, ghost_hooks={'InD[v] += 1':h_ind_inc,'InD[v] -= 1':h_ind_dec,'update_schedule.append(u)':h_sched_append},
     abstract_lists=('update_schedule','Q'), exit_lemmas=["finite_subset_eq(elems(update_schedule), V)"],
     modifies=['top._sched.update_schedule'], returns=None, property_ids=('C01','C02'), sample=False,
@@ -119,13 +119,13 @@ def heuristic_contracts():
               "forall(a, b, implies(((a, b) in old(top._dag.all_constraints)) and (a in elems(top._sched.update_schedule)) and (b in elems(top._sched.update_schedule)), gpos(a) < gpos(b))) and "
               "forall(a, implies(a in elems(top._sched.update_schedule), 0 <= gpos(a) and gpos(a) < card(elems(top._sched.update_schedule))))",
       source="C01/C02: the heuristic-topological scheduler too places every combinational block exactly once with every constraint (u,v) honoured, or raises")],
-    loops={1:Loop(invariant=["dom(InD) == V and dom(Es) == V",
+    loops={'in top._dag.all_constraints':Loop(invariant=["dom(InD) == V and dom(Es) == V",
                              "forall(a, b, ((a, b) in E) == (((a, b) in seen) and a in V and b in V))", EDGES, IND, ES],
                   modifies=['InD','Es','E'],ghost=['g_rem']),
-           2:Loop(invariant=["forall(b, (b in dom(branchiness)) == (b in top._dag.genblks or b in seen))"], modifies=['branchiness'], ghost=[]),
-           3:Loop(invariant=FILL, modifies=['Q'], ghost=[]),
-           4:Loop(invariant=W, modifies=['Q','update_schedule','InD'],ghost=['g_rem','g_pos']),
-           5:Loop(invariant=INNER, modifies=['Q','InD'],ghost=['g_rem'])},
+           'in top.get_all_update_blocks()':Loop(invariant=["forall(b, (b in dom(branchiness)) == (b in top._dag.genblks or b in seen))"], modifies=['branchiness'], ghost=[]),
+           'for v in V':Loop(invariant=FILL, modifies=['Q'], ghost=[]),
+           'while not Q.empty()':Loop(invariant=W, modifies=['Q','update_schedule','InD'],ghost=['g_rem','g_pos']),
+           'in Es[id_v[u]]':Loop(invariant=INNER, modifies=['Q','InD'],ghost=['g_rem'])},
     ghost_init=ghost_init, ghost_hooks={'InD[v] += 1':h_ind_inc,'InD[v] -= 1':hh_ind_dec,'update_schedule.append(id_v[u])':hh_sched_append},
     abstract_lists=('update_schedule',), exit_lemmas=["finite_subset_eq(elems(update_schedule), V)"],
     opaque_methods={'CountBranchesLoops':ObjK('any'),'get_update_block_host_component':ObjK('any'),'get_update_block_info':ObjK('any'),'enter':TupleT(IntT(),BoolT())},
